@@ -76,6 +76,17 @@ pub fn corpus_sized(seed: u64, thorough: bool, tiny: bool) -> Vec<Case> {
             cfg.bps = *rng.pick(&[16u32, 20, 24, 32]);
             cfg.max_lpc = *rng.pick(&[Some(8), Some(12), Some(32)]);
         }
+        let mut frames = frames;
+        if i % 6 == 5 {
+            // very short blocks (and short final frames) with tonal material: the LPC candidate exists
+            // only while the block is longer than the configured order, and it wins on such material -
+            // a parallel build that schedules its candidates differently for short blocks shows here
+            cfg.block_size = *rng.pick(&[16u16, 20, 24, 32, 33, 48]);
+            cfg.max_lpc = *rng.pick(&[Some(2u8), Some(4), Some(8), Some(12), Some(32)]);
+            cfg.bps = *rng.pick(&[16u32, 24]);
+            signal = *rng.pick(&[flacref::pcm::Signal::Sine, flacref::pcm::Signal::QuietTonal, flacref::pcm::Signal::Sweep, flacref::pcm::Signal::SmoothRandomWalk]);
+            frames = cfg.block_size as usize * rng.usize(2, 5) + rng.usize(9, 33);
+        }
         v.push(Case { cfg, front: *rng.pick(&FRONTS), recipe: PcmRecipe { signal, seed: rng.next(), frames } });
     }
     v
@@ -165,6 +176,7 @@ pub fn run(ctx: &Ctx, rep: &mut Report) {
                 for rpt in 0..reps {
                     rep.eval();
                     rep.count("pool_threads", pool_sizes[pi]);
+                    rep.count("block_size_class", if c.cfg.block_size <= 48 { "<=48 (short-block class)" } else { ">=256" });
                     let pseed = ctx.seed ^ ((i as u64) << 20) ^ ((pi as u64) << 8) ^ rpt ^ (round << 40);
                     // seeded delay of 0..=max us at the start of every parallel task
                     let max_us = [0u64, 20, 200][(pseed % 3) as usize];
